@@ -27,6 +27,7 @@ NOT_STEADY = '%sServerClosing(_) | %sClientException | %sClientClosed' % (CS, CS
 def run(ctx):
     _run_main(ctx)
     _shared_r5(ctx)
+    _round6(ctx)
 
 
 def _run_main(ctx):
@@ -90,3 +91,10 @@ def _shared_r5(ctx):
     from rules import arms as A
     with ctx.rule('R20.8', 'a close that shares a read with the reply to the call in flight does not overflow the reply queue: two places per slot (shared with C05)', floor=1) as r:
         A.include(ctx, r, 'c05', 'R05.3', pick=('slot/handle-pairing', 'creation-sites'))
+
+
+def _round6(ctx):
+    """Found by seeding round 6."""
+    from rules import arms as A
+    with ctx.rule('R20.9', "a close handled together with queued output stays a close: the seal set by the close paths is never undone, so is_connection_done's assertion holds (shared with C08)", floor=5) as r:
+        A.include(ctx, r, 'c08', 'R08.2', pick=('sealed-assignment', 'constructed-unsealed', 'new:callers', 'never-replaced'))
